@@ -368,6 +368,13 @@ func c13Gen(seed int64, idx int) *c13Chain {
 				}
 				parts := subParts(r, small, true)
 				baseMin, baseMax := curLens[0].Lo, curLens[len(curLens)-1].Hi
+				if !defectHere && r.Chance(1, 8) {
+					// an upper boundary at and beyond 32 bits (RFC 6020 9.4.4: lengths go up to 18446744073709551615)
+					bigv := core.Pick(r, []string{"4294967295", "4294967296", "9223372036854775808", "18446744073709551615"})
+					if v, ok := new(big.Int).SetString(bigv, 10); ok && v.Cmp(baseMax) <= 0 && parts[len(parts)-1].Lo.Cmp(curLens[len(curLens)-1].Lo) >= 0 {
+						parts[len(parts)-1].Hi = v
+					}
+				}
 				if defectHere {
 					switch inject {
 					case "not-subset":
